@@ -1,6 +1,7 @@
 package props
 
 import (
+	"bytes"
 	"context"
 	"fmt"
 	"strings"
@@ -29,10 +30,11 @@ const (
 	kOtherCmdName
 	kAllByName
 	kAllByIdx
+	kOddName // the command's short name plus a character that is neither R nor A: a key of its own, never selected
 	nKeys
 )
 
-var keyNames = []string{"own-index", "index-other-app", "index-other-code", "index-other-R", "own-name", "opposite-R/A-name", "other-command-name", "ALL-by-name", "ALL-by-index"}
+var keyNames = []string{"own-index", "index-other-app", "index-other-code", "index-other-R", "own-name", "opposite-R/A-name", "other-command-name", "ALL-by-name", "ALL-by-index", "odd-name"}
 
 type c09Msg struct {
 	app, code uint32
@@ -99,6 +101,8 @@ func c09Register(mux *diam.ServeMux, f *fired, m c09Msg, k int, gen int) {
 		mux.Handle("ALL", h)
 	case kAllByIdx:
 		mux.HandleIdx(diam.ALL_CMD_INDEX, h)
+	case kOddName:
+		mux.Handle(m.short+[]string{"X", "r", "a", "1", "RA", ""}[(int(m.code)+gen)%6], h)
 	}
 }
 
@@ -395,6 +399,63 @@ func TestC09(t *testing.T) {
 			return
 		}
 		c.Event("dispatches", 1)
+	})
+
+	// 3b. a message that was read from the wire as one command and is dispatched after its header
+	//     was rewritten to another (an agent that translates between applications, a test that
+	//     reuses a decoded message): the rule applies to the message as it is when dispatched
+	rec.Suite("header-rewritten-after-read", rec.N(300, 100000), func(c *ev.Case) {
+		src := msgs[c.R.IntN(len(msgs))]
+		m := msgs[c.R.IntN(len(msgs))]
+		subset := c.R.IntN(1 << nKeys)
+		mux := diam.NewServeMux()
+		f := &fired{}
+		slot := [3]int{}
+		for k := 0; k < nKeys; k++ {
+			if subset&(1<<k) != 0 {
+				c09Register(mux, f, m, k, 1)
+				switch k {
+				case kOwnIdx:
+					slot[0] = k*10 + 1
+				case kOwnName:
+					slot[1] = k*10 + 1
+				case kAllByName, kAllByIdx:
+					slot[2] = k*10 + 1
+				}
+			}
+		}
+		fl := uint8(0)
+		if src.req {
+			fl = 0x80
+		}
+		wire := refcodec.EncodeMessage(refcodec.Header{Version: 1, Flags: fl, Code: src.code, App: src.app, HopByHop: 1, EndToEnd: 2},
+			[]*refcodec.Node{{Code: 264, Flags: 0x40, Kind: refcodec.DiameterIdentity, B: []byte("h")}})
+		msg, err := diam.ReadMessage(bytes.NewReader(wire), ctx.Parser)
+		if err != nil {
+			return // the source command is not one the dictionary resolves on the wire
+		}
+		msg.Header.ApplicationID, msg.Header.CommandCode = m.app, m.code
+		msg.Header.CommandFlags &^= diam.RequestFlag
+		if m.req {
+			msg.Header.CommandFlags |= diam.RequestFlag
+		}
+		drain(mux)
+		p, bad := guard(func() { mux.ServeDIAM(nil, msg) })
+		got := f.take()
+		reports := drain(mux)
+		want := decide(slot[0], slot[1], slot[2])
+		c.Class("header-rewritten/selected=%s/same-command=%v", hname([]int{want}), src == m)
+		desc := fmt.Sprintf("read from the wire as {app %d code %d request %v}, header rewritten to {app %d code %d request %v}, registered %s", src.app, src.code, src.req, m.app, m.code, m.req, subsetNames(subset))
+		switch {
+		case bad:
+			c.Fail(ev.Sig{"op": "panic", "via": "header-rewritten"}, nil, nil, "ServeDIAM panicked: %s; %s", p, desc)
+		case (want == 0 && len(got) != 0) || (want != 0 && (len(got) != 1 || got[0] != want)):
+			c.Fail(ev.Sig{"op": "wrong-handler", "via": "header-rewritten"}, wire, nil, "handlers %v, expected %v; %s", hname(got), hname([]int{want}), desc)
+		case want == 0 && reports != 1:
+			c.Fail(ev.Sig{"op": "no-error-report", "via": "header-rewritten"}, wire, nil, "no handler applies and %d error reports were offered; %s", reports, desc)
+		default:
+			c.Event("dispatches", 1)
+		}
 	})
 
 	// 4. concurrent re-registration and dispatch, checked for linearizability
